@@ -116,7 +116,7 @@ def build_flow(case, g, stage_untrained):
     F, fxp = get_flow_wrapper(backend)
     lo = np.array([float(g.uniform(-4, 0)) for _ in range(d)])
     hi = lo + np.array([float(g.uniform(2, 7)) for _ in range(d)])
-    params = [f"p{j}" for j in range(d)]
+    params = ["width", "angle"][:d]  # declared order is not alphabetical; the two parameters have different bounds
     pb = {p: [float(lo[j]), float(hi[j])] for j, p in enumerate(params)}
     data = make_data(g, case["data"], d, lo, hi)
     if backend == "zuko":
@@ -132,6 +132,7 @@ def build_flow(case, g, stage_untrained):
     via_aspire = affine  # Aspire.init_flow always whitens; affine off needs a hand-made FlowTransform
     if via_aspire:
         t = Target([Coord("box", lo[j], hi[j], 0.0, 1.0) for j in range(d)])
+        t.parameters = params
         probe = Probe(t)
         a = Aspire(
             log_likelihood=probe.log_likelihood,
